@@ -114,16 +114,21 @@ NMAX = int(os.environ.get("VQ_NMAX", "4"))
 # ------------------------------------------------------------------ STACK-ADJ
 
 class _WS2:
+    def __init__(self, lo, hi):
+        self.lo, self.hi = lo, hi
+
     def fullmatch(self, s):
-        return True if s.strip() == "" else None
+        return True if (s.strip() == "" and self.lo <= len(s) and (self.hi is None or len(s) <= self.hi)) else None
 
 
 class _RegexShim2:
     VERSION1 = 0
 
     def compile(self, pat, flags=0):
-        assert pat == r"\s*", pat
-        return _WS2()
+        # the separator pattern as the code compiles it: white space with a quantifier
+        table = {r"\s*": (0, None), r"\s?": (0, 1), r"\s+": (1, None), r"\s": (1, 1)}
+        assert pat in table, "unsupported separator pattern %r" % pat
+        return _WS2(*table[pat])
 
 
 ADJ_TEXTS = ["ab cd", "ab  cd", "abcd e", "ab-cd ", "a b c "]
